@@ -249,10 +249,14 @@ class MultiLevelTransform(CompositeTransform):
             if not transforms:
                 identity = torch.eye(self.ndim, self.ndim + 1, device=self.device)
                 return identity.unsqueeze(0)
+            # x + sum_i (A_i x + t_i - x) = (sum_i A_i - (n - 1) I) x + sum_i t_i
             transform = transforms[0]
             mat = as_homogeneous_matrix(transform.tensor())
             for transform in transforms[1:]:
-                mat += as_homogeneous_matrix(transform.tensor())
+                mat = mat + as_homogeneous_matrix(transform.tensor())
+            if len(transforms) > 1:
+                eye = torch.eye(self.ndim, self.ndim + 1, dtype=mat.dtype, device=mat.device)
+                mat = mat - (len(transforms) - 1) * eye
             return mat
         return self.disp()
 
